@@ -114,6 +114,11 @@ class Interposer:
             z = self.noise_rng.normal(0, 1, x.size) if tok._kind == "gaussian" else self.noise_rng.laplace(0, 1, x.size)
             y = x + scale * z
         self.events.append({"e": "Release", "kind": tok._kind, "scale": scale, "x": x, "y": y.copy()})
+        # code that keeps the noise vector and looks at it later sees the noise implied by the observed release (y - x)
+        try:
+            tok.view(np.ndarray).reshape(-1)[:] = y - x
+        except Exception:
+            pass
         return y.copy()
 
     def _recorded(self, k, kind):
